@@ -76,7 +76,8 @@ def _one(job):
                dict(missing=sorted(defined - declared)[:5]))
     except Exception as e:  # noqa: BLE001
         return dict(file=rel, opts=opts, error=f"{type(e).__name__}: {e}", tb=traceback.format_exc()[-1500:])
-    return dict(file=rel, opts=opts, results=res)
+    names = sorted(parsed['structs']) + sorted(parsed['aliases'])
+    return dict(file=rel, opts=opts, results=res, names=names)
 
 
 def _ok(opts):
